@@ -18,6 +18,15 @@
 // (all n! orders while a request consults <=3 owned choices, i.e. <=4 appList entries; beyond that
 // every order with <=2 non-default picks) x <=1 non-default choice in the map ranges of mount.go.
 //
+// Added by the clause-coverage audit (AUDIT.md):
+//   - error sources 7..10 (sub-app middleware, error replaced on the way back, shared 5xx value, wrapped
+//     *fiber.Error); every sub-app has a pass-through middleware and a two-handler GET /x route;
+//   - family "mount-spelling": the same mounts written as Use("/p/"), Use("p"), Use(sub), Group("/p").Use("/"),
+//     Group("/").Use("/p"), Group("/p").Use(sub); mounts at "/"; one app object mounted twice
+//     (App.mount's "" -> "/" branch, Group.mount, the trailing-slash arm of the boundary test);
+//   - family "path-spelling-x-routing-config": trailing slashes, empty segments, other letter case,
+//     percent-encoded letters / slashes in the request path x CaseSensitive / StrictRouting / UnescapePath.
+//
 // The chooser is process-global, so the product is sharded over worker PROCESSES
 // (core.SpawnWorkers), each strictly sequential.
 package main
@@ -633,13 +642,19 @@ func spellingPrograms(quick bool) []program {
 			slashMount = slashMount || m.Rel == "/"
 		}
 		seen := map[[2]int]bool{}
-		for v := 0; v < nVia; v++ {
+		for v := 0; v < nVia*nVia; v++ {
+			if quick && v >= nVia {
+				break // quick: one mount, or all mounts, in spelling v; thorough: every pair of spellings (v/nVia, v%nVia) too
+			}
 			for mask := 1; mask < 1<<len(base); mask++ {
 				vec := [2]int{viaUse, viaUse}
 				ok := true
 				for i := range base {
 					if mask&(1<<i) != 0 {
 						vec[i] = v
+						if v >= nVia {
+							vec[i] = [2]int{v / nVia, v % nVia}[i]
+						}
 					}
 					ok = ok && viaApplies(base[i].Rel, vec[i])
 				}
@@ -679,6 +694,22 @@ func spellingPrograms(quick bool) []program {
 			}
 		}
 	}
+	if !quick {
+		// thorough: the deep chains root -> m0 -> m1 -> m2 with every mounting call written through a group / with a trailing slash
+		for _, ms := range deepStructures(0) {
+			for _, v := range []int{viaSlash, viaGroupRoot, viaGroupSplit} {
+				ms := append([]mount(nil), ms...)
+				for i := range ms {
+					ms[i].Via, ms[i].Spell = v, viaNames[v]
+				}
+				for _, late := range []bool{false, true} {
+					for _, rootOwn := range []bool{false, true} {
+						out = append(out, program{Mounts: ms, NestLate: late, RootOwn: rootOwn, Deep: true, Family: famSpelling})
+					}
+				}
+			}
+		}
+	}
 	return out
 }
 
@@ -690,11 +721,15 @@ var pathCfgs = []int{0, cfgCase, cfgStrict, cfgUnescape, cfgCase | cfgStrict | c
 // pathVariants to the request paths of these programs.
 func pathCfgPrograms(quick bool) []program {
 	var out []program
+	cfgs := pathCfgs
+	if !quick {
+		cfgs = []int{0, 1, 2, 3, 4, 5, 6, 7} // thorough: every combination of the three flags
+	}
 	for _, ms := range structures(2, prefixes) {
 		if len(ms) == 0 {
 			continue
 		}
-		for _, cfg := range pathCfgs {
+		for _, cfg := range cfgs {
 			for _, rootOwn := range []bool{false, true} {
 				for _, catch := range []bool{false, true} {
 					out = append(out, program{Mounts: ms, RootOwn: rootOwn, RootCatch: catch, Family: famPathCfg, Cfg: cfg})
@@ -1265,7 +1300,7 @@ func main() {
 		if r.Deadline.IsZero() {
 			// internal wall-clock cap (the machine may be shared): end with exhaustive=false instead of overrunning the tier
 			if r.Quick() {
-				r.Deadline = r.Start.Add(58 * time.Second)
+				r.Deadline = r.Start.Add(5 * time.Minute)
 			} else {
 				r.Deadline = r.Start.Add(14 * time.Minute)
 			}
@@ -1468,7 +1503,8 @@ func runProgram(r *core.Run, l *core.Local, p *program, pi int, fctx *fasthttp.R
 	bldRad := append([]int(nil), st.bldRad...)
 	runAll(h, [2]int{-1, 0}, true, nf, false)
 	l.Add("builds", 1)
-	if p.Deep {
+	l.Add("programs_family_"+famNames[p.Family], 1)
+	if p.Deep && p.Family == famMain {
 		l.Add("deep_programs", 1)
 		if p.NestLate && p.Order == nil {
 			l.Add("deep_programs_top_down", 1)
@@ -1669,13 +1705,20 @@ func qualifier(p *program, rawPath string, want []int, o *outcome) string {
 		if want[0] == 0 && o != nil && o.ngot > 0 {
 			ids = o.gotIDs()
 		}
+		// ... together with their ancestors (the spelling of a parent's mount decides where its children end up)
+		inv := make([]bool, len(p.Mounts))
+		for i := range p.Mounts {
+			for _, id := range ids {
+				if id == 0 || p.appID(i) == id {
+					for k := i; k >= 0; k = p.Mounts[k].Parent {
+						inv[k] = true
+					}
+				}
+			}
+		}
 		set := map[string]bool{}
 		for i, m := range p.Mounts {
-			involved := ids[0] == 0
-			for _, id := range ids {
-				involved = involved || p.appID(i) == id
-			}
-			if !involved {
+			if !inv[i] {
 				continue
 			}
 			if m.Via != viaUse {
@@ -1693,6 +1736,9 @@ func qualifier(p *program, rawPath string, want []int, o *outcome) string {
 			ks = append(ks, k)
 		}
 		sort.Strings(ks)
+		if len(ks) == 0 {
+			ks = []string{"plain"}
+		}
 		return " mounts-spelled=" + strings.Join(ks, "+")
 	case famPathCfg:
 		cfg := cfgText(p.Cfg)
@@ -1890,6 +1936,15 @@ func finish(r *core.Run, progs []program, maxMounts int) {
 			core.Fatal("vacuous: failing error handlers (returning *fiber.Error values, mounted apps, CustomCtx funnel) were not exercised")
 		}
 	}
+	if c["evaluations_path_inside_mount_made_through_group"] == 0 || c["evaluations_path_inside_mount_at_parent_root"] == 0 || c["evaluations_path_inside_second_mount_of_one_app"] == 0 {
+		core.Fatal("vacuous: the mount-spelling family (mounts made through groups, mounts at the parent's root, one app mounted twice) was not exercised")
+	}
+	if c["evaluations_percent_decoded_path"] == 0 || c["evaluations_letter_case_unspecified"] == 0 {
+		core.Fatal("vacuous: the path-spelling family (percent-encoded paths under UnescapePath, other letter case) was not exercised")
+	}
+	if c["evaluations_added_error_sources"] == 0 {
+		core.Fatal("vacuous: the added error sources were not exercised")
+	}
 	if !r.Quick() && c["evaluations_under_capped_orders"] == 0 {
 		core.Fatal("vacuous: no request consulted more than %d owned choices (5-entry appList expected in thorough)", maxFullOrderChoices)
 	}
@@ -1903,11 +1958,17 @@ func finish(r *core.Run, progs []program, maxMounts int) {
 		Coverage: map[string]any{
 			"evaluations":         c["evaluations"],
 			"distinct_nontrivial": c["nontrivial"],
-			"rule": fmt.Sprintf("full product: %d programs (every set of <=%d mounts over root prefixes %v, children of one mount with relative prefixes %v, each sub-app with/without own ErrorHandler, nested Use before/after the parent is mounted, root with default/custom handler, with/without root catch-all, DefaultCtx funnel / CustomCtx funnel; plus DEEP trees: every chain root->m0->m1->m2 with prefixes from %v (two nesting levels below a mount; thorough: plus one more mount off the root, m0 or m1), built top-down (parents mounted first, descendants left to the start-up pass appendSubAppLists) and bottom-up (thorough: every order of the chain's Use calls)) x request paths {each alphabet prefix, each full mount prefix, each PARTIAL prefix of a nested mount = its chain of relative prefixes with some ancestors dropped (where a sub-app registered under a truncated path would answer), each +\"/x\", /apix, /other; deep trees also full prefix+\"x/x\"} x URL forms %v x %d error sources %v x %d behaviours of the injected error handlers %v (the same behaviour for the root's and every mounted app's handler: it answers, or it FAILS = returns non-nil: a plain error / the very error it was given / a fresh *fiber.Error 451 / fiber.ErrBadGateway / an error wrapping the given one / an error wrapping fiber.ErrServiceUnavailable, without writing or after having written a response; judged: still exactly one delivery to the selected handler and status 500; a panicking handler is not covered by the statement and not run; the answering handler and one failing variant are explored in full, the other failing variants under the default mount.go order, every ErrorHandler order in programs with <=2 mounts, default order in larger ones, and only in programs that inject a handler) x every permutation of the appList range in App.ErrorHandler (chooser driven by an odometer; all n! orders while a request consults <=%d owned choices = n<=4 map entries; with 5 entries (thorough 4-mount deep trees) the 46 of 120 orders with <=%d non-default picks, which still realise every relative order of any three entries) x {default, each single non-default choice} in the map ranges of mount.go; one evaluation = one request under one iteration order; non-trivial = at least one mount prefix is a string prefix of the request path (the selection loop has something to decide) or the path lies under a partial prefix of a nested mount (the scope clause has something to refute). %s",
-				len(progs), maxMounts, prefixes, nestedRel, deepAlpha, formNames, nSrc, srcNames, nBeh, behNames, maxFullOrderChoices, maxOrderDeviations, pol),
+			"rule": fmt.Sprintf("full product: %d programs (every set of <=%d mounts over root prefixes %v, children of one mount with relative prefixes %v, each sub-app with/without own ErrorHandler, nested Use before/after the parent is mounted, root with default/custom handler, with/without root catch-all, DefaultCtx funnel / CustomCtx funnel; plus DEEP trees: every chain root->m0->m1->m2 with prefixes from %v (two nesting levels below a mount; thorough: plus one more mount off the root, m0 or m1), built top-down (parents mounted first, descendants left to the start-up pass appendSubAppLists) and bottom-up (thorough: every order of the chain's Use calls)) x request paths {each alphabet prefix, each full mount prefix, each PARTIAL prefix of a nested mount = its chain of relative prefixes with some ancestors dropped (where a sub-app registered under a truncated path would answer), each +\"/x\", /apix, /other; deep trees also full prefix+\"x/x\"} x URL forms %v x %d error sources %v x %d behaviours of the injected error handlers %v (the same behaviour for the root's and every mounted app's handler: it answers, or it FAILS = returns non-nil: a plain error / the very error it was given / a fresh *fiber.Error 451 / fiber.ErrBadGateway / an error wrapping the given one / an error wrapping fiber.ErrServiceUnavailable, without writing or after having written a response; judged: still exactly one delivery to the selected handler and status 500; a panicking handler is not covered by the statement and not run; the answering handler and one failing variant are explored in full, the other failing variants under the default mount.go order, every ErrorHandler order in programs with <=2 mounts, default order in larger ones, and only in programs that inject a handler) x every permutation of the appList range in App.ErrorHandler (chooser driven by an odometer; all n! orders while a request consults <=%d owned choices = n<=4 map entries; with 5 entries (thorough 4-mount deep trees) the 46 of 120 orders with <=%d non-default picks, which still realise every relative order of any three entries) x {default, each single non-default choice} in the map ranges of mount.go; one evaluation = one request under one iteration order; non-trivial = at least one mount prefix is a string prefix of the request path (the selection loop has something to decide) or the path lies under a partial prefix of a nested mount (the scope clause has something to refute). %s"+
+				" ERROR SOURCES: the first %d are explored in full; the last %d (a sub-app's own middleware registered before its routes; a root middleware that REPLACES the error coming back from Next - the replacement is what must be delivered, once; the shared package-level value fiber.ErrServiceUnavailable = 5xx with the status text as message; an error WRAPPING a *fiber.Error, which the documented default handler maps with errors.As) with answering (or default) handlers and with the two failing behaviours that hand the given error back, under the default mount.go order, every ErrorHandler order in programs with <=2 mounts; every sub-app has a pass-through middleware and its GET /x route two handlers, so errors travel back through up to four frames."+
+				" FAMILY mount-spelling (%d programs): every structure of <=2 mounts over root prefixes %v (\"/\" = a sub-app mounted at its parent's root, which contains every path) with ONE mount or ALL mounts (thorough: every pair of spellings; deep chains all through groups / with trailing slashes) written as %v - all spellings denote the same mount, so the same handler is expected; plus ONE APP OBJECT MOUNTED TWICE (two root-level prefixes; a root-level prefix and below another mount); x rootOwn x catch-all x both nesting orders x request paths (as above plus / and /x) x the fully explored scenarios and the answering scenarios of the added sources x every ErrorHandler order x single mount.go deviations (both App.mount and Group.mount ranges are owned)."+
+				" FAMILY path-spelling-x-routing-config (%d programs): every structure of <=2 mounts of the main alphabet x root Config %v (bit 1 CaseSensitive, 2 StrictRouting, 4 UnescapePath) x request paths as above plus, per mount prefix F: %v built as F/, F/x/, F//x, F with its first letter in the other case + /x, upper-case F, F with its first letter percent-encoded + /x, F%%2Fx; the reference decides on the path the application sees (percent-decoded under UnescapePath only; letter case and slashes untouched); where routing is case-insensitive and the two readings of 'contains' differ, either handler is accepted (unspecified_skipped), under CaseSensitive only the byte-wise one; POST requests: either framework error (404/405) is accepted, its delivery is judged.",
+				len(progs), maxMounts, prefixes, nestedRel, deepAlpha, formNames, nSrc, srcNames, nBeh, behNames, maxFullOrderChoices, maxOrderDeviations, pol,
+				nOldSrc, nSrc-nOldSrc, c["programs_family_"+famNames[famSpelling]], spellRoot, viaNames, c["programs_family_"+famNames[famPathCfg]], map[bool][]int{true: pathCfgs, false: {0, 1, 2, 3, 4, 5, 6, 7}}[r.Quick()], pathClassNames),
 			"bounds": map[string]any{"max_mounts": maxMounts, "max_mounts_deep_trees": map[bool]int{true: 3, false: 4}[r.Quick()], "nesting_depth": 2, "programs": len(progs), "deep_programs": c["deep_programs"],
 				"error_sources": nSrc, "error_handler_behaviours": nBeh, "source_x_behaviour_scenarios": len(scens),
 				"max_applist_entries": map[bool]int{true: 4, false: 5}[r.Quick()], "all_orders_up_to_applist_entries": maxFullOrderChoices + 1, "max_order_deviations_beyond": maxOrderDeviations,
+				"mount_spellings": nVia, "routing_configs": map[bool]int{true: len(pathCfgs), false: 8}[r.Quick()], "path_spellings_per_mount": len(pathClassNames),
+				"programs_mount_spelling_family": c["programs_family_"+famNames[famSpelling]], "programs_path_spelling_family": c["programs_family_"+famNames[famPathCfg]],
 				"max_orders_per_request": map[bool]int{true: 24, false: 46}[r.Quick()], "orders_skipped_by_deviation_cap": c["orders_skipped_by_deviation_cap"], "mount_go_deviations_per_build": 1},
 		},
 		Assumptions: []string{
@@ -1915,6 +1976,8 @@ func finish(r *core.Run, progs []program, maxMounts int) {
 			"iteration order of the map ranges in App.ErrorHandler / mount.go is owned through a syntactic overlay rewrite (verifrt.MapOrder); a snapshot of the keys is iterated, i.e. entries inserted during appendSubAppLists' own iteration are not revisited (Go permits either)",
 			"two configured apps mounted at the same full prefix: the statement does not rank them, the identity of the winner is not judged (determinism still is)",
 			"which framework error (404 vs 405) arises is taken from a 6-line routing model, only its delivery is judged",
+			"all spellings of a mounting call (Use with/without trailing or leading slash, through a Group, without a prefix) denote the mount at parent prefix + relative prefix: this is how the router registers the sub-app's routes",
+			"the request path of the statement is Ctx.Path(): the bytes of the request line, percent-decoded only under Config.UnescapePath; whether /api contains /Api/x under case-insensitive routing is not specified and not judged",
 		},
 	})
 }
